@@ -1652,8 +1652,8 @@ Proof.
   intros st id ex. unfold win_expose.
   destruct (t_chain id (r_tree st)) as [chain|]; [|reflexivity].
   destruct (expose_up chain ex) as [d|]; [|reflexivity].
-  unfold root_damage. destruct (rs_contains rsfuel (r_damage st) d) as [[|]|]; try reflexivity.
-  destruct (rs_add rsfuel (r_damage st) d); reflexivity.
+  unfold root_damage. destruct (rs_contains (r_fuel st) (r_damage st) d) as [[|]|]; try reflexivity.
+  destruct (rs_add (r_fuel st) (r_damage st) d); reflexivity.
 Qed.
 
 Lemma request_restore_tree : forall st, r_tree (request_restore st) = r_tree st.
